@@ -6,6 +6,7 @@ package ingestsim
 
 import (
 	"fmt"
+	"strings"
 
 	"github.com/metrico/qryn/zz_verif/chfake"
 	"pgregory.net/rapid"
@@ -69,10 +70,15 @@ type Scenario struct {
 }
 
 var labelNames = []string{"app", "env", "zone", "job", "le", "host-name", "1abc", "a.b"}
-var labelVals = []string{"api", "prod", "eu", "x", "", "a\"b", "ü", "with space", "0"}
+var labelVals = []string{"api", "prod", "eu", "x", "", "a\"b", "ü", "with space", "0", "bell\a", "tab\tnl\n", "\u007f\u2028", strings.Repeat("long", 30)}
 
-func genStream(rt *rapid.T, l string, metricOnly, logOnly bool, big bool) Stream {
+func genStream(rt *rapid.T, l string, metricOnly, logOnly bool, big bool, pool [][][2]string) Stream {
 	s := Stream{}
+	if len(pool) > 0 && rapid.IntRange(0, 4).Draw(rt, l+".pool") > 0 {
+		// reuse one of the run's label sets: histories of the same series across requests and protocols
+		s.Labels = pool[rapid.IntRange(0, len(pool)-1).Draw(rt, l+".pi")]
+		return genEntries(rt, l, s, metricOnly, logOnly, big)
+	}
 	nl := rapid.IntRange(1, 4).Draw(rt, l+".nl")
 	seen := map[string]bool{}
 	for i := 0; i < nl; i++ {
@@ -83,6 +89,10 @@ func genStream(rt *rapid.T, l string, metricOnly, logOnly bool, big bool) Stream
 		seen[n] = true
 		s.Labels = append(s.Labels, [2]string{n, rapid.SampledFrom(labelVals).Draw(rt, fmt.Sprintf("%s.lv%d", l, i))})
 	}
+	return genEntries(rt, l, s, metricOnly, logOnly, big)
+}
+
+func genEntries(rt *rapid.T, l string, s Stream, metricOnly, logOnly bool, big bool) Stream {
 	s.Perm = rapid.IntRange(0, 3).Draw(rt, l+".perm")
 	max := 5
 	if big {
@@ -106,9 +116,11 @@ func genStream(rt *rapid.T, l string, metricOnly, logOnly bool, big bool) Stream
 	return s
 }
 
-var protos = []string{"loki-json", "loki-json-entries", "loki-proto", "prom-rw", "influx"}
+var protos = []string{"loki-json", "loki-json-entries", "loki-proto", "prom-rw", "influx", "loki-json", "prom-rw", "datadog-logs", "datadog-metrics", "otlp-logs", "zipkin", "zipkin-nd", "otlp-traces"}
 
-func genOp(rt *rapid.T, l string, timerMs int) Op {
+var hostileRecipes = []string{"truncate", "bitflip", "random", "empty", "badsnappy", "gzip-header", "snappy-header", "bad-encoding", "deepnest", "wrong-content-type", "wrong-route", "short-id"}
+
+func genOp(rt *rapid.T, l string, timerMs int, pool [][][2]string, hostile bool) Op {
 	op := Op{Proto: rapid.SampledFrom(protos).Draw(rt, l+".proto")}
 	// think times are multiples of the flush interval: simulated time costs scheduler steps in
 	// proportion to (duration / flush interval), so long histories are only drawn with a slow timer
@@ -120,7 +132,7 @@ func genOp(rt *rapid.T, l string, timerMs int) Op {
 	big := rapid.IntRange(0, 19).Draw(rt, l+".big") == 0
 	ns := rapid.IntRange(1, 3).Draw(rt, l+".ns")
 	for i := 0; i < ns; i++ {
-		op.Streams = append(op.Streams, genStream(rt, fmt.Sprintf("%s.s%d", l, i), op.Proto == "prom-rw", op.Proto == "loki-proto", big))
+		op.Streams = append(op.Streams, genStream(rt, fmt.Sprintf("%s.s%d", l, i), op.Proto == "prom-rw", op.Proto == "loki-proto", big, pool))
 	}
 	if rapid.IntRange(0, 3).Draw(rt, l+".fragp") == 0 {
 		nf := rapid.IntRange(1, 3).Draw(rt, l+".nf")
@@ -128,6 +140,10 @@ func genOp(rt *rapid.T, l string, timerMs int) Op {
 			op.Frag = append(op.Frag, rapid.SampledFrom([]int{1, 7, 64, 1000, 70000}).Draw(rt, fmt.Sprintf("%s.f%d", l, i)))
 		}
 		op.StallUs = rapid.SampledFrom([]int64{0, 3, 1500, 25000}).Draw(rt, l+".stall")
+	}
+	if hostile && rapid.IntRange(0, 1).Draw(rt, l+".hostile") == 0 {
+		op.Hostile = rapid.SampledFrom(hostileRecipes).Draw(rt, l+".recipe")
+		op.HostileN = rapid.IntRange(0, 100000).Draw(rt, l+".hn")
 	}
 	return op
 }
@@ -173,13 +189,25 @@ func genFaults(rt *rapid.T) []chfake.Fault {
 
 // GenScenario draws a whole scenario.
 func GenScenario(rt *rapid.T) Scenario {
+	return genScenario(rt, false)
+}
+
+// GenHostileScenario mixes hostile requests with honest ones (C05).
+func GenHostileScenario(rt *rapid.T) Scenario { return genScenario(rt, true) }
+
+func genScenario(rt *rapid.T, hostile bool) Scenario {
 	s := Scenario{Cfg: genCfg(rt)}
+	var pool [][][2]string
+	np := rapid.IntRange(0, 4).Draw(rt, "pool")
+	for i := 0; i < np; i++ {
+		pool = append(pool, genStream(rt, fmt.Sprintf("pool%d", i), false, true, false, nil).Labels)
+	}
 	nc := rapid.IntRange(1, 4).Draw(rt, "clients")
 	for c := 0; c < nc; c++ {
 		cl := Client{}
 		no := rapid.IntRange(1, 5).Draw(rt, fmt.Sprintf("c%d.ops", c))
 		for o := 0; o < no; o++ {
-			cl.Ops = append(cl.Ops, genOp(rt, fmt.Sprintf("c%d.o%d", c, o), s.Cfg.DBTimerMs))
+			cl.Ops = append(cl.Ops, genOp(rt, fmt.Sprintf("c%d.o%d", c, o), s.Cfg.DBTimerMs, pool, hostile))
 		}
 		s.Clients = append(s.Clients, cl)
 	}
